@@ -638,8 +638,9 @@ func runBehaviour(t *testing.T, b *behaviour, v variant, real *realRing) (mm *ab
 					fail(b.Grain+":callback-arguments", map[string]any{"calls": seen, "note": note}, b.Calls, "")
 					break
 				}
-				if v.Spawner == "recording" && e.spawned != b.Spawns {
-					fail(b.Grain+":spawn-count", e.spawned, b.Spawns, "")
+				// every callback goes through o.Go (the cleanup goroutine may or may not)
+				if v.Spawner == "recording" && (e.spawned > b.Spawns || (b.Spawns > 0 && e.spawned < b.Spawns-1)) {
+					fail(b.Grain+":spawn-count", e.spawned, fmt.Sprintf("%d or %d", b.Spawns-1, b.Spawns), "")
 					break
 				}
 			}
